@@ -264,7 +264,7 @@ func (c *context) SetOption(name string, value interface{}) error {
 
 	switch name {
 	case protocol.OptionReadQLen:
-		if v, ok := value.(int); ok {
+		if v, ok := value.(int); ok && v >= 0 {
 			recvQ := make(chan *protocol.Message, v)
 			sizeQ := make(chan struct{})
 			c.s.Lock()
